@@ -7,7 +7,8 @@
      remaining bytes, nothing only at end of file (util::ReadCompressed::Read on
      an intact plain or compressed input -- C15).  Every fragmentation of the
      stream is such a source.  WHang (fuel) never occurs. *)
-From PP Require Import Warc.WarcDefs Warc.WarcProofs Compress.CompressProofs Warc.ParallelDefs Warc.ParallelProofs.
+From PP Require Import Warc.WarcDefs Warc.WarcProofs Compress.CompressDefs Compress.CompressProofs Warc.ParallelDefs Warc.ParallelProofs.
+From PP Require Import Warc.WarcCompressed Compress.ToyCodec.
 From Coq Require Import Permutation.
 Local Open Scope Z_scope.
 
@@ -150,6 +151,19 @@ Theorem C17_parallel_single_worker_keeps_order :
 Proof. exact parallel_single_worker_keeps_order. Qed.
 Print Assumptions C17_parallel_single_worker_keeps_order.
 
+(* the input side of the tool (ptool): every input is framed by its own WARCReader and
+   an exception there ends the process.  The tool can only complete when every input
+   is, byte for byte, a concatenation of CR LF CR LF terminated records: a truncated
+   input (stdin or -i file) is an error of the tool, for every schedule and -j *)
+Theorem C17_parallel_tool_inputs_exact :
+  forall n fuel (inputs_frags : list frags) jobs sched st,
+    Forall (fun f => detect_magic (takeN kMagicSize (fbytes f)) = None) inputs_frags ->
+    ptool (fun s => read_plain n fuel [s]) (map fbytes inputs_frags) jobs sched = Some st ->
+    exists inputs, st = prun (pinit inputs jobs) sched /\
+      Forall2 (fun f recs => concat recs = fbytes f /\ Forall ends_with_trailer recs) inputs_frags inputs.
+Proof. exact parallel_tool_inputs_exact. Qed.
+Print Assumptions C17_parallel_tool_inputs_exact.
+
 Example C17_nonvacuous_parallel :
   let a := [1]%Z in let b := [2; 2]%Z in let c := [3]%Z in
   let s := prun (pinit [[a; b]; [c]] 2)
@@ -210,3 +224,35 @@ Proof.
   - split; [repeat constructor; lia|]. split; vm_compute; [discriminate|reflexivity].
   - apply bad_missing. right. reflexivity.
 Qed.
+
+(* ---- compressed input: WARCReader over ReadCompressed over an abstract codec that
+   obeys the C15 contract.  Any mix of gzip/bzip2/xz members, any member boundaries
+   (one member per record, one for the whole file, ...), any fragmentation: exactly
+   the records.  (gstate = reader state of C15 plus the ghost "payload not yet
+   delivered"; gread = C15's rd.) *)
+Theorem C17_records_exact_compressed_input :
+  forall (world dstate : Type) (dnew : world -> kind -> dstate * world)
+         (dcall : kind -> dstate -> Z -> list Z -> N -> cres dstate)
+         (member : kind -> list Z -> list Z -> Prop)
+         (DInv : kind -> dstate -> list Z -> list Z -> Prop) (dstall : dstate -> nat),
+    (forall k m p, member k m p -> starts_with (magic_of k) m = true) ->
+    (forall w k m p, member k m p -> DInv k (fst (dnew w k)) m p) ->
+    dcall_contract dstate dcall DInv dstall ->
+    forall (rfuel : nat) (f : frags) (w : world) (raw : list Z) (recs : list (list Z)) (n fuel : nat),
+      mstream member raw (concat recs) -> fbytes f = raw -> Forall wf_record recs ->
+      (2 * length raw < rfuel)%nat -> (length recs < n)%nat -> (length (concat recs) + 1 < fuel)%nat ->
+      exists s0, rc_open world dstate dnew f w = Some s0 /\
+        warc_read_all (gstate world dstate) (gread world dstate dnew dcall rfuel) n fuel (s0, concat recs) [] = AllOk recs.
+Proof. exact warc_compressed_exact_proof. Qed.
+Print Assumptions C17_records_exact_compressed_input.
+
+(* it runs: ex_rec2 compressed by the toy gzip codec as one member, ex_rec1 as a second
+   (toy bzip2) member, delivered byte by byte *)
+Example C17_nonvacuous_compressed :
+  let raw := (magic_of KGz ++ enc ex_rec2 ++ [0]) ++ (magic_of KBz ++ enc ex_rec1 ++ [0]) in
+  match rc_open unit tdec tdnew (map (fun b => [b]) raw) tt with
+  | Some s0 => warc_read_all (gstate unit tdec) (gread unit tdec tdnew tdcall 1000) 5 300 (s0, ex_rec2 ++ ex_rec1) []
+               = AllOk [ex_rec2; ex_rec1]
+  | None => False
+  end.
+Proof. vm_compute. reflexivity. Qed.
